@@ -13,8 +13,8 @@ META = {
     "level_note": "Trusted: Coq kernel, pygen, extraction+driver, the virtual Lock/Condition/poll/clock (harness/vsched.py). Lateness is measured in virtual time; wall-clock "
                   "scheduling is outside the model.",
     "technique": "Coq: refutation by explicit schedule + invariant-based classification of every blocked waiter; virtual-clock schedule replay of the real code",
-    "gen": ["serve"],
-    "shapes": ["serve.*", "protocol.Connection.serve", "protocol.Connection._dispatch"],
+    "gen": ["serve", "stream", "protocol"],
+    "shapes": ["serve.*", "stream.Stream.poll", "protocol.Connection.serve", "protocol.Connection._dispatch", "protocol.Connection._dispatch_response"],
     "models": ["serve"],
     "model_files": ["Serve"],
     "assumptions": ["threading.Condition semantics", "virtual time: the clock advances only when no thread is enabled"],
